@@ -53,7 +53,7 @@ def parseOp (toks : List String) (now : Nat) : Option Node.Op :=
   | ["closing", p, c] => do pure (.closing (← p.toNat?) (← c.toNat?))
   | ["get", k, f] => do pure (.get (← k.toNat?) (f == "1"))
   | ["cancel", q] => do pure (.cancel (← q.toNat?))
-  | ["msg", p, h, d, b, w] => do
+  | "msg" :: p :: h :: d :: b :: w :: _ => do   -- an optional 7th token `c=<connection>` is not the model's business
     let h ← natList (← kv h "h")
     let d ← natList (← kv d "d")
     let b ← parsePairs (← kv b "b")
@@ -67,6 +67,9 @@ def parseOp (toks : List String) (now : Nat) : Option Node.Op :=
   | ["newblocks", b] => do pure (.newBlocks (← parsePairs b))
   | ["complete", s, r] => do pure (.complete (← s.toNat?) (← parseRes r))
   | ["tick", ms] => do pure (.tick (← ms.toNat?))
+  -- a failed dial (`FromSwarm::DialFailure`) is none of the behaviour's business: lib.rs ignores it, the node
+  -- model has no operation for it — it must leave the state as it is (a tick of 0 ms)
+  | ["dialfail", _p, _c] => some (.tick 0)
   | ["drain", pref, obs] => do pure (.drain (← parsePairs (← kv pref "c")) (← parsePairs (← kv obs "l")))
   | _ => none
 
